@@ -224,8 +224,14 @@ DLLEXPORT int GET_NAME(tj3Decompress, BITS_IN_JSAMPLE)
 
   croppedHeight = dinfo->output_height;
 #if BITS_IN_JSAMPLE != 16
-  if (this->croppingRegion.y != 0 || this->croppingRegion.h != 0)
+  if (this->croppingRegion.y != 0 || this->croppingRegion.h != 0) {
+    /* The cropping region may have been validated against a different JPEG
+       image or scaling factor. */
+    if (this->croppingRegion.y + this->croppingRegion.h >
+        (int)dinfo->output_height)
+      THROW("The cropping region exceeds the scaled image dimensions");
     croppedHeight = this->croppingRegion.h;
+  }
 #endif
   if ((row_pointer =
        (_JSAMPROW *)malloc(sizeof(_JSAMPROW) * croppedHeight)) == NULL)
